@@ -1,13 +1,13 @@
 """C18 — stream and datagram framing agree under arbitrary segmentation."""
 from sim import refdec
-from sim.lib import header
+from sim.lib import header, sd
 from .common import COMPONENTS, ASSUMPTIONS, rng  # noqa: F401
 
 ID = "C18"
 LEVEL = "fault_enumeration"
 MINIMISE_S = 5.0
 RULES = {
-    "EQUIV": "the messages read from the stream are exactly the messages datagram decoding (SOMEIPHeader.parse in a loop, cross-checked by the independent reference decoder) yields from the concatenated bytes, in order, whatever the chunking",
+    "EQUIV": "the messages read from the stream are exactly the messages datagram decoding (SOMEIPHeader.parse in a loop, cross-checked by the independent reference decoder and by what SOMEIPDatagramProtocol.datagram_received dispatches for the same bytes) yields from the concatenated bytes, in order, whatever the chunking",
     "REJECT-POSITION": "a header that datagram decoding rejects is rejected by the stream reader with the library's ParseError at the same message index",
     "EOF-INCOMPLETE": "a stream that ends inside a message produces an incomplete-read error after exactly the complete messages before it - never a shortened message",
     "RESET-PROPAGATES": "after a connection reset the reader has delivered a prefix of the messages and, if it raises, raises that reset (never a shortened message, never another error)",
@@ -139,6 +139,25 @@ def datagram_view(data):
     return msgs, "end"
 
 
+class _Recorder(sd.SOMEIPDatagramProtocol):
+    def __init__(self):
+        super().__init__()
+        self.got = []
+
+    def message_received(self, m, addr, multicast):
+        self.got.append((m.service_id, m.method_id, m.client_id, m.session_id, m.protocol_version, m.interface_version, int(m.message_type), int(m.return_code), bytes(m.payload)))
+
+
+def protocol_view(data):
+    """what the library's datagram protocol hands to message_received for a datagram with these bytes"""
+    rec = _Recorder()
+    try:
+        rec.datagram_received(data, ("10.0.0.9", 30509), False)
+    except Exception as exc:  # noqa: B902
+        return rec.got, type(exc).__name__
+    return rec.got, None
+
+
 def ref_view(data):
     msgs = []
     buf = data
@@ -164,6 +183,13 @@ def check(plan, res):
     # the reference decoder and the library's datagram decoder must agree in the first place (C01/C03 territory; reported here as EQUIV)
     if (lib_msgs, lib_stop) != (ref_msgs, ref_stop):
         viol.append(("EQUIV", {"msg": f"datagram decoding yields {len(lib_msgs)} messages / {lib_stop}, the reference decoder {len(ref_msgs)} / {ref_stop}", "context": "datagram-vs-reference"}))
+    if len(data) <= 65507:
+        # the datagram endpoint's own loop (SOMEIPDatagramProtocol.datagram_received): the same messages, front to back
+        prot_msgs, prot_exc = protocol_view(data)
+        if prot_exc is not None:
+            viol.append(("EQUIV", {"msg": f"datagram_received raised {prot_exc} after {len(prot_msgs)} messages", "context": "datagram-protocol-raised"}))
+        elif prot_msgs != lib_msgs:
+            viol.append(("EQUIV", {"msg": f"the datagram protocol dispatched {len(prot_msgs)} messages, datagram decoding yields {len(lib_msgs)} / {lib_stop}", "context": "datagram-protocol-vs-parse"}))
     want = ref_msgs
     if reads != want[: len(reads)] or len(reads) > len(want):
         k = next((i for i, (a, b) in enumerate(zip(reads, want)) if a != b), min(len(reads), len(want)))
